@@ -165,6 +165,43 @@ def run(ck):
             if any(l.startswith("tx ") for l in o["out"]):
                 ck.nontriv(("station", sid))
     ck.count("station_scripts", len(st_scripts))
+    # ---- (1b) directed: a frame of the maximum length (L = 253, 254, 255) is received between a transmission and its repetition:
+    #      the repetition is still the identical frame (the receive buffer and the copy kept for repetition are different storage)
+    rep_scripts, rep_meta = [], {}
+    for al in (0, 1, 2):
+        own = {0: 0, 1: 3, 2: 0x1234}[al]
+        oth = {0: 0, 1: 2, 2: 0x0456}[al]
+        for Lf in (253, 254, 255):
+            big = bytes((7 * i + Lf) & 0xFF for i in range(Lf - 1 - al))
+            d = bytes([0x0d, 1, 3, 0, 1, 0, 0x11, 0x22, 0x33, 0x44, 0x55, 0x66])
+            sid = "rep.us.%d.%d" % (al, Lf)
+            rep_scripts.append((sid, ["cfg kind=us al=%d sc=0 addr=%d idle=100000" % (al, own), "rx " + hx(L.fixed(al, L.ctrl(0, prm=1), own)), "enq2 " + hx(d),
+                                      "rx " + hx(L.fixed(al, L.ctrl(11, prm=1, fcb_acd=1, fcv_dfc=1), own)),
+                                      "rx " + hx(L.variable(al, L.ctrl(4, prm=1), own, big)),
+                                      "rx " + hx(L.fixed(al, L.ctrl(11, prm=1, fcb_acd=1, fcv_dfc=1), own))]))
+            rep_meta[sid] = ("us", al, Lf)
+            sid = "rep.bal.%d.%d" % (al, Lf)
+            rep_scripts.append((sid, ["cfg kind=bal al=%d sc=0 addr=%d other=%d dir=1 idle=100000" % (al, own, oth), "run",
+                                      "rx " + hx(L.fixed(al, L.ctrl(11, prm=0), own)), "rx " + hx(L.fixed(al, L.ctrl(0, prm=0), own)), "send " + hx(d), "run",
+                                      "rx " + hx(L.variable(al, L.ctrl(4, prm=1), own, big)), "tick 250"]))
+            rep_meta[sid] = ("bal", al, Lf)
+    rr, nd1b = L.correspond(ck, hll, mexe, rep_scripts, fix, "link-station-repeat")
+    nd1 += nd1b
+    for sid, lines in rep_scripts:
+        o = rr.get(sid)
+        if not o or o["crash"]:
+            continue
+        ck.evaluations += 1
+        kind, al, Lf = rep_meta[sid]
+        ud = [bytes.fromhex(l.split()[1]) for l in o["out"] if l.startswith("tx 68")]
+        if len(ud) >= 2:
+            ck.nontriv(("repeat", sid))
+            if ud[-1] != ud[0]:
+                ck.fail("input", "oracle:fcb:repeat-not-identical:after-max-frame", "%s station (address width %d): after receiving a frame with L=%d the repetition %s differs from the first transmission %s" % (
+                    kind, al, Lf, ud[-1].hex(), ud[0].hex()), {"script": lines, "observed": [l for l in o["out"] if l.startswith(("tx", "rxmsg"))][-6:], "harness": "h_ll"})
+        else:
+            ck.fail("input", "oracle:fcb:repeat-missing:after-max-frame", "%s station (address width %d): no repetition after a frame with L=%d was received in between (transmitted: %s)" % (
+                kind, al, Lf, [x.hex()[:24] for x in ud]), {"script": lines, "observed": o["out"][-8:], "harness": "h_ll"})
     # ---- (2) the line under loss patterns
     cfgs = [("bal", 1, 0, 1), ("bal", 1, 1, 1), ("unb", 1, 0, 1), ("unb", 1, 1, 2)] if quick else \
            [(m, al, sc, n) for m in ("bal", "unb") for al in (1, 2) for sc in (0, 1) for n in ((1,) if m == "bal" else (1, 2, 3))]
